@@ -16,7 +16,7 @@ import (
 
 var c14Kinds = []string{"json.Number", "int", "int8", "int16", "int32", "int64", "uint", "uint8", "uint16", "uint32", "uint64", "float32", "float64", "decimal128"}
 
-var c14Values = []string{"-7", "-2", "-1", "0", "1", "2", "3", "8", "0.5", "1.5", "-3.5", "255", "2147483648", "2.0", "3e0", "20e-1", "-0.0",
+var c14Values = []string{"-7", "-2", "-1", "0", "1", "2", "3", "8", "0.5", "1.5", "-3.5", "255", "2147483648", "2.0", "3e0", "20e-1", "-0.0", "5e-1", "25e-1", "-25E-1", "2.50",
 	// beyond the 53-bit mantissa and beyond int64: only for forms that compare or order (no arithmetic)
 	"9007199254740992", "9007199254740993", "9223372036854775807", "9223372036854775808", "18446744073709551615", "-9223372036854775808"}
 
